@@ -2,20 +2,28 @@
 #include <map>
 namespace fmm { struct Segment { std::string name; std::function<long(bool)> count; std::function<void(long, uint64_t, bool, vh::Result&)> run; }; }
 #define DECL(d, p) void vh_fmm_segments_d##d##_##p(std::map<std::string, std::vector<fmm::Segment>>&);
-#ifdef VH_ONLY_D3
+#if defined(VH_MC)
+DECL(3, 0) DECL(3, 1)
+#elif defined(VH_ONLY_D3)
 DECL(3, 0)
 #else
 DECL(1, 0) DECL(2, 0) DECL(3, 0) DECL(4, 0) DECL(1, 1) DECL(2, 1) DECL(3, 1)
+#ifndef VH_MC
 void vh_fmm_segments_hilbert(std::map<std::string, std::vector<fmm::Segment>>&);
+#endif
 #endif
 int main(int argc, char** argv) {
     std::map<std::string, std::vector<fmm::Segment>> segs;
-#ifdef VH_ONLY_D3
+#if defined(VH_MC)
+    vh_fmm_segments_d3_0(segs); vh_fmm_segments_d3_1(segs);
+#elif defined(VH_ONLY_D3)
     vh_fmm_segments_d3_0(segs);
 #else
     vh_fmm_segments_d1_0(segs); vh_fmm_segments_d2_0(segs); vh_fmm_segments_d3_0(segs); vh_fmm_segments_d4_0(segs);
     vh_fmm_segments_d1_1(segs); vh_fmm_segments_d2_1(segs); vh_fmm_segments_d3_1(segs);
+#ifndef VH_MC
     vh_fmm_segments_hilbert(segs);
+#endif
 #endif
     std::vector<vh::Mode> modes;
     for (auto& kv : segs) {
